@@ -1,7 +1,63 @@
-(* C05  Directive order and file layout do not matter.  (theorems under development; see Proofs/OrderProofs.v) *)
+(* C05  Directive order and file layout do not matter.
+   Theorem statements only; proofs in Proofs/OrderProofs.v (generic fold lemma, builder,
+   ParseDirective), Proofs/OrderSMap.v, Proofs/OrderStages.v (the pipeline stages),
+   Proofs/OrderCmd.v (commands), Proofs/CheckPerm.v (well-formedness), Proofs/LoaderProofs.v.
+
+   Vocabulary.
+   - [Permutation sds1 sds2]: the same syntax-level directives in another order (what reordering
+     a file, or distributing it over included files, does to the list the loader produces:
+     see C05_layout).
+   - [sd_syntactic sds]: what the parser guarantees for account names (no colon or NUL inside a
+     segment), as in Properties/C04.v; without it two different accounts could have the same
+     name and the checker's position map would depend on the order.
+   - [ceq R x y]: both commands fail, or both succeed with R-related results.  The error text is
+     NOT invariant: knut reports the first offender in arrival order (C05_error_depends_on_order).
+   - [day_equiv x y]: same date, the five per-kind lists are permutations of each other. *)
 From Coq Require Import ZArith QArith List Bool Permutation.
-From Knut Require Import Model.Ledger Model.Journal Spec.LedgerSpec Proofs.LedgerProofs.
+From Knut Require Import Model.Str Model.Dec Model.Date Model.Account Model.Ledger Model.Journal Model.Check
+     Model.Pipeline Model.Cli Spec.LedgerSpec Spec.WellformedSpec
+     Proofs.LedgerProofs Proofs.CheckMain Proofs.CheckPerm Proofs.OrderProofs Proofs.OrderStages Proofs.OrderCmd.
 Import ListNotations.
+
+(* ------------------------------------------------------------------ 1. the verdict *)
+
+(* `knut check` accepts a journal iff it accepts every reordering of it -- for the checker of
+   the pinned code ([check_cmd false]), the lenient one ([check_cmd true]) and the repaired one
+   ([check_cmd_fixed], = what /repo does now). *)
+Theorem C05_verdict_perm : forall sds1 sds2,
+  Permutation sds1 sds2 -> sd_syntactic sds1 ->
+  (forall l, check_cmd l sds1 = COk tt <-> check_cmd l sds2 = COk tt) /\
+  (check_cmd_fixed sds1 = COk tt <-> check_cmd_fixed sds2 = COk tt) /\
+  (forall r, check_cmd_current r sds1 = COk tt <-> check_cmd_current r sds2 = COk tt).
+Proof. exact verdict_perm. Qed.
+Print Assumptions C05_verdict_perm.
+
+(* the specification side (C04's well-formedness does not look at the order) *)
+Theorem C05_wellformed_perm : forall ds1 ds2, Permutation ds1 ds2 -> (wellformed ds1 <-> wellformed ds2).
+Proof. exact wellformed_perm. Qed.
+Print Assumptions C05_wellformed_perm.
+
+Theorem C05_check_model_perm : forall ds1 ds2,
+  Permutation ds1 ds2 -> syntactic ds1 -> (check_model ds1 = VOk <-> check_model ds2 = VOk).
+Proof. exact check_perm. Qed.
+Print Assumptions C05_check_model_perm.
+
+(* lib/model converts directive by directive: permuted in, permuted out (or both rejected) *)
+Theorem C05_parse_perm : forall l1 l2,
+  Permutation l1 l2 -> meq (@Permutation directive) (parse_directives l1) (parse_directives l2).
+Proof. exact parse_directives_perm. Qed.
+Print Assumptions C05_parse_perm.
+
+(* ------------------------------------------------------------------ 2. the builder *)
+
+(* same days (dates), each day's lists permuted, same period *)
+Theorem C05_build_perm : forall ds1 ds2,
+  Permutation ds1 ds2 ->
+  Forall2 day_equiv (b_days (builder_of ds1)) (b_days (builder_of ds2)) /\
+  b_min (builder_of ds1) = b_min (builder_of ds2) /\
+  b_max (builder_of ds1) = b_max (builder_of ds2).
+Proof. exact build_perm. Qed.
+Print Assumptions C05_build_perm.
 
 (* the builder loses and duplicates nothing, whatever the order of arrival *)
 Theorem C05_builder_census : forall dl,
